@@ -65,7 +65,11 @@ class Prop(BaseProp):
         n = 40 if not big else 400
         cases = [{"id": "sf%d" % i, "text": gen_case(rng, big), "meta": {}} for i in range(n)]
         cases += [{"id": "burst%d" % i, "text": gen_burst(rng, big), "meta": {}} for i in range(8 if not big else 40)]
-        return [{"name": "sf", "cases": cases, "prep": "sf", "prep_impl": True, "timeout": 900, "panic_ok": False}]
+        # wide flights: as many callers on one key as the u16 waiter statistic of Call can count, one fewer and one more
+        # (oracle only: the model has no such counter, and its theorems hold for any number of callers)
+        wide = [{"id": "wide%d" % n, "text": "W %d k0 | Q | F 0 v | Y 3" % n, "meta": {"model_may_be_silent": True}} for n in ([65536, 65537, 65535] if not big else [65536, 65537, 65535, 131072, 65538])]
+        return [{"name": "sf", "cases": cases, "prep": "sf", "prep_impl": True, "timeout": 900, "panic_ok": False},
+                {"name": "sf", "cases": wide, "model": False, "timeout": 900, "panic_ok": False}]
 
     def nontrivial(self, stream, case, io):
         keys = [o.split()[2] for o in case["text"].split(" | ") if o.startswith("A ")]
